@@ -20,6 +20,9 @@ CLAIMED = {
     "C04": ("CrossHair/z3 symbolic execution of ruleLatentDOW/DOM/DOY/POD + real dateutil vs. exact nearest-future-date oracle in integer arithmetic; year x month case split",
             "Trusted: CrossHair's datetime model, regex engine and ranking (replay only). Not covered: ruleDOWDOM (rrule not executable symbolically). Bounds: quick 24 year-month cells (2023, 2024) for day-of-month / day+month, 6 cells for weekdays, 4 years for parts of day; thorough all 336 cells / 28 years.",
             "§5 C04"),
+    "C06": ("CrossHair/z3 symbolic execution of all clock rule bodies (am/pm, military, named, quarter/half, hour+part of day) and of _latent_tod vs. exact contracts; group stub for regex groups",
+            "Trusted: regex group texts denote the stub's integers (token lemmas), CrossHair's datetime model, ranking (replay only). Bounds: all hours/minutes/13 am-pm spellings/all table parts of day; latent anchoring over 24 year-month cells quick, 336 thorough.",
+            "§5 C06"),
 }
 
 NOT_YET = {}
